@@ -202,6 +202,8 @@ def shard(spec) -> core.Acc:
             check_doc(acc, context(ROLES[role](s)), CORNER_CONFIGS[:2] if length >= 3 else CORNER_CONFIGS, length <= 1,
                       {'gen': 'role', 'role': role})
             if length <= 2:
+                # the target alone, as the first thing on line 1, delivered in every two-chunk split
+                check_doc(acc, [ROLES[role](s)], CORNER_CONFIGS[:1], True, {'gen': 'role', 'role': role})
                 # the same context as a named block serialised on its own: start_indent / indent_braces take effect
                 check_doc(acc, [('B', 'wrap', context(ROLES[role](s)))], CORNER_CONFIGS[2:], False, {'gen': 'role', 'role': role},
                           single_block_root=True)
